@@ -3,7 +3,7 @@
    a cleaned conjunct does not depend on the order in which its conditions arrive (Go map iteration, unstable
    sort.Slice); witnesses for the alternative readings of NOT. *)
 From Coq Require Import List NArith ZArith Bool Lia Permutation.
-From Pk Require Import Query QuerySort QueryClean QueryFlags QueryHosts QueryOps QuerySet QueryAtoms QueryMain QuerySeq QueryThen QueryGroup.
+From Pk Require Import Query QuerySort QueryClean QueryFlags QueryHosts QueryOps QuerySet QueryAtoms QueryMain QuerySeq QueryThen QueryGroup QueryChain.
 Import ListNotations.
 Open Scope Z_scope.
 
@@ -142,3 +142,17 @@ Lemma ex_group_ok : class_ok ex_group = true /\ expr_wf ex_group.
 Proof. split; [reflexivity|]. cbn. repeat split; discriminate. Qed.
 Lemma hypotheses_satisfiable_class : (val_ok ex_val /\ ids_ok ex_val) /\ (class_ok ex_group = true /\ expr_wf ex_group).
 Proof. split; [exact ex_val_ok|exact ex_group_ok]. Qed.
+
+(* a group in the middle of a chain, on the left of a THEN:
+   (cdata:0 then (cdata:1 -cdata:0 id:0) then (cdata:1 or -cdata:1)) then -(cdata:1 then cdata:0), OR-ed with ex_group *)
+Definition ex_chain : expr :=
+  EOr (EThen (EThen (EThen (EAtom (AData 0 [0%N]))
+                           (EAnd (EAnd (EAtom (AData 0 [1%N])) (ENot (EAtom (AData 0 [0%N]))))
+                                 (EAtom (ANum [0%N] 0 [ROne [NPNum false 0]]))))
+                    (EOr (EAtom (AData 0 [1%N])) (ENot (EAtom (AData 0 [1%N])))))
+             (ENot (EThen (EAtom (AData 0 [1%N])) (EAtom (AData 0 [0%N])))))
+      ex_group.
+Lemma ex_chain_ok : class3 ex_chain = true /\ expr_wf ex_chain.
+Proof. split; [reflexivity|]. cbn. repeat split; discriminate. Qed.
+Lemma hypotheses_satisfiable_class3 : (val_ok ex_val /\ ids_ok ex_val) /\ (class3 ex_chain = true /\ expr_wf ex_chain).
+Proof. split; [exact ex_val_ok|exact ex_chain_ok]. Qed.
